@@ -64,6 +64,10 @@ pub struct GraphEngine {
     published_labels: RwLock<Arc<LabelSnapshot>>,
     published_node_labels: RwLock<Arc<Vec<Vec<LabelId>>>>,
     write_lock: Mutex<()>,
+    /// Held for writing while a commit or compaction publishes its in-memory state, and for
+    /// reading while a snapshot collects the published fields, so that a snapshot never
+    /// sees a half-published transaction.
+    publish_lock: RwLock<()>,
     next_txid: AtomicU64,
     next_segment_id: AtomicU64,
     manifest_epoch: AtomicU64,
@@ -141,6 +145,7 @@ impl GraphEngine {
             published_labels: RwLock::new(Arc::new(label_snapshot)),
             published_node_labels: RwLock::new(Arc::new(node_labels_snapshot)),
             write_lock: Mutex::new(()),
+            publish_lock: RwLock::new(()),
             next_txid: AtomicU64::new(state.max_txid.saturating_add(1).max(1)),
             next_segment_id: AtomicU64::new(max_seg_id.saturating_add(1).max(1)),
             manifest_epoch: AtomicU64::new(state.manifest_epoch),
@@ -187,6 +192,16 @@ impl GraphEngine {
     }
 
     pub fn begin_read(&self) -> Snapshot {
+        let _publish = self.publish_lock.read().unwrap();
+        self.begin_read_published()
+    }
+
+    pub(crate) fn publish_read_guard(&self) -> std::sync::RwLockReadGuard<'_, ()> {
+        self.publish_lock.read().unwrap()
+    }
+
+    /// `begin_read` for callers that already hold the publish lock.
+    pub(crate) fn begin_read_published(&self) -> Snapshot {
         #[cfg(luqing_studio_nervusdb_verif)]
         nervusdb_api::verif_hooks::sched("read.before_runs");
         let runs = self.published_runs.read().unwrap().clone();
@@ -578,6 +593,7 @@ impl GraphEngine {
         #[cfg(luqing_studio_nervusdb_verif)]
         nervusdb_api::verif_hooks::sched("compact.after_wal_manifest");
         // 4. Update memory state
+        let _publish = self.publish_lock.write().unwrap();
         self.checkpoint_txid.store(up_to_txid, Ordering::SeqCst);
         self.properties_root.store(current_root, Ordering::SeqCst);
         self.stats_root.store(stats_root, Ordering::SeqCst);
@@ -1217,6 +1233,7 @@ impl<'a> WriteTxn<'a> {
         let has_label_removals = !self.pending_label_removals.is_empty();
 
         // 3. Apply created nodes to IdMap / Node Index
+        let _publish = self.engine.publish_lock.write().unwrap();
         {
             let mut idmap = self.engine.idmap.lock().unwrap();
             let mut pager = self.engine.pager.write().unwrap();
